@@ -409,6 +409,29 @@ func Scenarios(thorough bool) []Scenario {
 		}
 		long = append(long, Scenario{Name: fmt.Sprintf("s14-idle-%d-epochs-then-first-send", n), Pre: pre, Threads: [][]Step{{R("m0", "X", 1), S("X"), R("m1", "X", 1), S("Y"), R("m2", "X", 1)}}, Bound: 0})
 	}
+	// many messages of several senders are held when the topic starts: each sender's messages come
+	// out in the order they went in (more than a dozen elements, interleaved senders)
+	for _, per := range []int{5, 10, 20} {
+		var st []Step
+		for i := 0; i < per; i++ {
+			for sd := uint16(1); sd <= 3; sd++ {
+				st = append(st, R(fmt.Sprintf("h%d-%02d", sd, i), "X", sd))
+			}
+		}
+		st = append(st, S("X"), R("late", "X", 1))
+		long = append(long, Scenario{Name: fmt.Sprintf("s15-held-3x%d-interleaved", per), Threads: [][]Step{st}, Bound: 0})
+	}
+	// the collector is due (box idle for seven epochs), one thread sends on X while the other lets
+	// the clock tick, starts T and receives for T: whatever the collector of the first send sees,
+	// a topic that has just started stays started
+	{
+		var pre []Step
+		for i := 0; i < 7; i++ {
+			pre = append(pre, Step{Kind: "tick"})
+		}
+		long = append(long, Scenario{Name: "s16-gc-due||tick;start;receive", Pre: pre, Threads: [][]Step{{S("X")}, {{Kind: "tick"}, S("T"), R("m1", "T", 1)}}, Bound: 3})
+		long = append(long, Scenario{Name: "s16b-gc-due||tick;tick;start;receive", Pre: pre, Threads: [][]Step{{S("X"), S("X")}, {{Kind: "tick"}, {Kind: "tick"}, S("T"), R("m1", "T", 1)}}, Bound: 2})
+	}
 	long = append(long, Scenario{Name: "s13-held-topic-in-use-survives-gc", Threads: [][]Step{held}, Bound: 0})
 	for e := 5; e <= 20; e++ {
 		long = append(long, Scenario{Name: fmt.Sprintf("s12-long-lived-topic-%d-epochs", e), Threads: [][]Step{longLived(e)}, Bound: 0})
